@@ -79,6 +79,10 @@ def spaces(tier):
 def run_sy(case):
     pars = {k: case[k] for k in ('sd', 'theta_s', 'b', 'psi_s')}
     try:
+        # a function with the same soil parameters but another sd is built
+        # first in the same process: nothing may leak between instances
+        decoy = dict(pars, sd=0.3 if pars['sd'] != 0.3 else 0.2)
+        sy_mod.create_specific_yield_function(dict(decoy, type='peatclsm'))
         sy = sy_mod.create_specific_yield_function(dict(pars,
                                                         type='peatclsm'))
     except Exception as exc:  # pylint: disable=broad-except
